@@ -9,6 +9,7 @@ import (
 	"crypto/sha256"
 	"crypto/sha512"
 	"fmt"
+	"io"
 	"math/big"
 	"math/rand/v2"
 
@@ -28,6 +29,19 @@ type Case struct {
 type fixed struct{ b []byte }
 
 func (f *fixed) Read(p []byte) (int, error) { n := copy(p, f.b); return n, nil }
+
+// chunked delivers at most n bytes per Read.
+type chunked struct {
+	r io.Reader
+	n int
+}
+
+func (c *chunked) Read(p []byte) (int, error) {
+	if len(p) > c.n {
+		p = p[:c.n]
+	}
+	return c.r.Read(p)
+}
 
 var msgLens = []int{0, 1, 2, 13, 47, 60, 73, 89, 100, 121, 133, 150, 155, 156, 157, 158, 159, 160, 161, 162, 163, 164, 165, 166, 167, 170, 320, 331, 332, 400}
 
@@ -94,6 +108,16 @@ func transcripts(rng *rand.Rand, ctx, msg []byte, kind int) (*sr25519.SigningTra
 		y.Write(msg)
 		pre := make([]byte, 32)
 		y.Read(pre)
+		// the XOF is an io.Reader: readers that deliver their output in short reads are as legitimate as one that
+		// fills the buffer at once
+		switch rng.IntN(4) {
+		case 1:
+			return sc.NewTranscriptXOF(&chunked{x, 1}), ref.SrTranscriptLabelled(ctx, "sign-XoF", pre), "xof(1-byte reads)"
+		case 2:
+			return sc.NewTranscriptXOF(&chunked{x, 16}), ref.SrTranscriptLabelled(ctx, "sign-XoF", pre), "xof(16-byte reads)"
+		case 3:
+			return sc.NewTranscriptXOF(&chunked{x, 31}), ref.SrTranscriptLabelled(ctx, "sign-XoF", pre), "xof(31+1 reads)"
+		}
 		return sc.NewTranscriptXOF(x), ref.SrTranscriptLabelled(ctx, "sign-XoF", pre), "xof"
 	}
 	return sc.NewTranscriptBytes(msg), ref.SrTranscriptBytes(ctx, msg), "bytes"
@@ -156,6 +180,41 @@ func signing(r *mon.Run, c Case) {
 		}
 		if got, derr := verifyBytes(s.pkb, sigb, st); derr || !got {
 			r.Violate("sr25519/Verify/honest-rejected-after-round-trip", "", c)
+		}
+		// receivers decoded into repeatedly behave like fresh ones, whatever was done with them in between
+		if other, ok2 := mkSigner(r, c, mon.Bytes(rng, 32), false); ok2 {
+			var pk sr25519.PublicKey
+			var so sr25519.Signature
+			osig, _ := other.kp.Sign(&fixed{ent}, st)
+			osb, _ := osig.MarshalBinary()
+			type step struct {
+				pkb, sb []byte
+				want    bool
+			}
+			steps := []step{{other.pkb, osb, true}, {s.pkb, sigb, true}, {other.pkb, sigb, false}, {s.pkb, osb, false}, {s.pkb, sigb, true}, {other.pkb, osb, true}}
+			for si, sp := range steps {
+				if err := pk.UnmarshalBinary(sp.pkb); err != nil {
+					r.Violate("sr25519/PublicKey.UnmarshalBinary/reused-receiver", err.Error(), c)
+					break
+				}
+				if err := so.UnmarshalBinary(sp.sb); err != nil {
+					r.Violate("sr25519/Signature.UnmarshalBinary/reused-receiver", err.Error(), c)
+					break
+				}
+				got := pk.Verify(st, &so)
+				bv := sr25519.NewBatchVerifier()
+				bv.Add(&pk, st, &so)
+				bv.Add(s.kp.PublicKey(), st, sig)
+				gotB, _ := bv.Verify(&fixed{ent})
+				r.EvalN(2)
+				r.Hist("reuse/receiver-step")
+				if got != sp.want || gotB != sp.want {
+					r.Violate("sr25519/reused-receiver", fmt.Sprintf("step %d: Verify=%v batch=%v want %v (a PublicKey/Signature decoded into again, after verifying with its previous value)", si, got, gotB, sp.want), c)
+				}
+				if pb, _ := pk.MarshalBinary(); !bytes.Equal(pb, sp.pkb) {
+					r.Violate("sr25519/reused-receiver/MarshalBinary", "", c)
+				}
+			}
 		}
 		// the transcript is not consumed: signing twice with the same entropy gives the same bytes; nil entropy still verifies
 		sig2, _ := s.kp.Sign(&fixed{ent}, st)
